@@ -20,6 +20,10 @@ EXPECTED_SENDER_FACTS = {
     "c19_execWaitsAll": "true", "c19_execReportsBatchErr": "true", "c19_execChecksReplies": "true",
     "c19_receiveWaitsAll": "true", "c19_receiveReportsBatchErr": "true", "c19_receiveChecksReplies": "true",
     "c19_dispatchStopsAtFirstSubmitError": "true", "c19_onceChecksPutErr": "true",
+    # dimension audit: process-global / client-global mutable state reached by the batchers (a NEW package-level variable that is written, or
+    # a new field of *Cluster written by the router inside Put, breaks this fact: draw its first-use / concurrent-use cases then)
+    "c19_packageVars": "batch_pipe.go:ErrNoConnection:read-only conn.go:okReply:read-only conn.go:pongReply:read-only",
+    "c19_putWritesClientState": "cluster.transactionEnable cluster.transactionNode",
     "c19_execErrFirst": "true",
     "c19_dispatchErrFirst": "true",
     "c19_receiveErrFirst": "true",
@@ -175,7 +179,19 @@ PROP = {
             "event `p` (a quarter of the sequential plain scenarios) releases the parked CLUSTER SLOTS at a request count, WHILE a batch runs: the real "
             "update goroutine installs the map beside the running node batches and then takes the inform of a MOVED answer of the same batch (a refresh "
             "started by the batch, parked again); after the attempt the harness waits for `r`, makes sure the map is installed and logs `R` (counters "
-            "note_refresh-in-flight / note_refresh-started-by-the-batch); real time, sampled - not enumerated",
+            "note_refresh-in-flight / note_refresh-started-by-the-batch); real time, sampled - not enumerated. "
+            "DIMENSION AUDIT (last round): C19out op tags are scenario NAMES (#g3668, #d146.x: stable across runs; VERIF_C19_DUMP=<tag> prints a scenario); "
+            "forced dimensions vfoDim / vfoDimList (quick: 30 non-cut + 40 cuts drawn without repetition, thorough: all 544): cut:<mode>:<resume|mem>:"
+            "<data|cp|same>:<cb|ac>:<at 0..8> (the connection of the data node / of the checkpoint key's node alone / of a node that holds both is "
+            "cut before / after request <at>; 24 commands, BatchCmdCount 3, the run must end by itself), size (streams of exactly 1 / BatchCmdCount / "
+            "BatchCmdCount+1 commands with BatchCmdCount 1 and 3, one slot moves), oneslot (every key one hash tag), unknown (a fourth node that owns "
+            "nothing; a slot is assigned to it: MOVED to a node the client does not know, refreshes not parked there), nodes:1 / nodes:2, hole (a slot "
+            "becomes unassigned: -CLUSTERDOWN, new double event `h`), cpdown (the checkpoint key's node goes down alone); counters dim_* and cfg_<option>_"
+            "<value> (enableTransaction, replayMode pipeline + effective, resumeFromBreakPoint, handleMove/AskErr, batchCmdCount 1-5/many, flushBy, nodes); "
+            "monitor failed-batch-not-reported (sendAof returned nil although the last batch ended with an error: repaired 6897116); client harness: "
+            "corpus multikey-ask.txt (ASK for EVERY key of a multi-key command vs SOME: sync / pipe / syncnf / stxn), d21m-midput-multikey.txt + generator "
+            "vfcGenMidPutMulti (every 20th generated scenario: a refresh between two Puts of one batch around a multi-key command; seeded change "
+            "C19-r2-m2), c19f degenerate keys (the empty key \"\" = slot 0, a key of slot 16383, `{}x`) in the four modes",
     "trusted": [
         "Redis Cluster redirection rules as transcribed in Model/ClusterRoute.lean (answer, tanswer, applyMig) and in the cluster "
         "double vf_c19_double_test.go (getNodeByQuery: MOVED/ASK/ASKING/TRYAGAIN/CROSSSLOT, EXEC re-check over all queued keys, "
@@ -265,6 +281,11 @@ PROP = {
         "queue, with the guard order regenerated; what is NOT in that model: the nodes (a stable cluster that executes what it is sent - the node side "
         "is ClusterExec), multi-key commands on one node over two slots (server CROSSSLOT) and during a migration (TRYAGAIN), and the sender's retry "
         "loop around `once` (ClusterSender.sendFunc, tied by c19o); `once`'s `chk` is regenerated too (Gen.C19Guards.onceChecksPutErr, code_once_sound)",
+        "dimension audit - NOT drawn: a hole that exists when the client starts (update() refuses a partial map: the run fails in NewRedisConn after "
+        "3 x 2 s of real time - liveness, out of scope); a transactional and a plain batcher of ONE client used alternately (the client-global "
+        "transactionEnable / transactionNode, pinned as c19_putWritesClientState: the sender always puts `exec` before it returns, the keepalive ping "
+        "is the only plain flush on a transactional client); byte-size flushes (BatchBufferSize is 1 GiB in every scenario: the flush trigger is the "
+        "sender's own concern - C01/C02); keepaliveTicker / updateCheckpointTicker values other than the two used; DEL/UNLINK on the double",
         "goroutine interleaving of per-node batches and socket timing are sampled by the tie, not enumerated; slot-map refresh races: a refresh "
         "installed while a batch is in flight and a refresh started by a MOVED answer of the running batch are now DRIVEN (schedule event `p`, ~60 "
         "runs per quick check, all accepted by the model) but sampled in real time: enumeration under synctest needs the cluster client's "
